@@ -4,11 +4,22 @@ Correspondence as for C01 (outcome, update sequence and final times of the REAL 
 hang is mapped to a harness error and can never agree with the model).  Monitor: final times, strict monotonicity,
 no update after every component reached the end time, the call history of every component, adapter finalisation."""
 from . import sched_common as sc
-from .sched_common import (COQ_IMPORTS, COQ_CHECK, COQ_MODEL_OBS, TRUSTED, coq_case, coq_obs, run_impl,  # noqa: F401
-                           shrink_candidates, distribution)
+from .sched_common import COQ_IMPORTS, TRUSTED, coq_case, run_impl, shrink_candidates, distribution  # noqa: F401
+from ..coqgen import L, N, P
 from . import c01
 
 ID = "C03"
+COQ_CHECK = "c03_check"
+COQ_MODEL_OBS = None
+
+_CALL = {"I": "KI", "C": "KC", "V": "KV", "U": "KU", "F": "KF"}
+
+
+def coq_obs(case, obs):
+    calls = L(L(_CALL.get(ch, "KF") for ch in c) for c in obs["calls"])
+    fins = L(N(min(x[3], 4000)) for x in obs["fin"])
+    return P(sc.coq_obs(case, obs), calls, fins)
+
 RULE = (
     "compositions as for C01; end times before / at / after the start and on / off the step grids of the components; "
     "non-trivial = the end time is off the step grid of at least one component and the run performs at least 3 "
